@@ -172,4 +172,60 @@ theorem from_str_radix_eq (bits radix : ℕ) (hN : nlimbs bits < 2 ^ 64) (hr : r
       | none => simp [GenRadixBE.mapErr, toRes, encE]
       | some c => simp [GenRadixBE.mapErr, toRes, encE, Char.ofNat_toNat]
 
+/-! ## `FromStr::from_str` -/
+
+theorem utf8Size_eq (c : Char) : Rs.utf8Size c.toNat = c.utf8Size := by
+  unfold Rs.utf8Size Char.utf8Size
+  simp only [Char.toNat, UInt32.le_iff_toNat_le, UInt32.toNat_ofNatLT]
+  split_ifs <;> omega
+
+theorem isCB_eq : ∀ (cs : List Char) (k : ℕ), Rs.isCharBoundary (cs.map Char.toNat) k = isCharBoundary cs k
+  | _, 0 => by cases ‹List Char› <;> simp [Rs.isCharBoundary, isCharBoundary]
+  | [], _ + 1 => by simp [Rs.isCharBoundary, isCharBoundary]
+  | c :: cs, k + 1 => by
+    simp only [List.map_cons, Rs.isCharBoundary, isCharBoundary, utf8Size_eq]
+    rw [isCB_eq cs]
+
+theorem split_eq : ∀ (cs : List Char) (k : ℕ), Rs.splitAtByte (cs.map Char.toNat) k
+      = ((splitAtByte cs k).1.map Char.toNat, (splitAtByte cs k).2.map Char.toNat)
+  | _, 0 => by cases ‹List Char› <;> simp [Rs.splitAtByte, splitAtByte]
+  | [], _ + 1 => by simp [Rs.splitAtByte, splitAtByte]
+  | c :: cs, k + 1 => by
+    simp only [List.map_cons, Rs.splitAtByte, splitAtByte, utf8Size_eq]
+    rw [split_eq cs]
+    split_ifs <;> simp
+
+theorem split_len : ∀ (cs : List Char) (k : ℕ), (splitAtByte cs k).2.length ≤ cs.length
+  | _, 0 => by cases ‹List Char› <;> simp [splitAtByte]
+  | [], _ + 1 => by simp [splitAtByte]
+  | c :: cs, k + 1 => by
+    simp only [splitAtByte]
+    have := split_len cs (k + 1 - c.utf8Size)
+    split_ifs <;> first | (simp; done) | (simp; omega)
+
+theorem map_beq (l m : List Char) : (l.map Char.toNat == m.map Char.toNat) = decide (l = m) := by
+  rw [Bool.eq_iff_iff]
+  simp only [beq_iff_eq, decide_eq_true_eq]
+  exact List.map_inj_right (fun x y h => Char.toNat_inj.mp h)
+
+theorem from_str_eq (bits : ℕ) (hN : nlimbs bits < 2 ^ 64) (cs : List Char) (hl : cs.length < 2 ^ 64) (f : ℕ)
+    (hf : nlimbs bits + cs.length + 1 < f) :
+    toRes (Ruint.Gen.uint_from_str f bits (nlimbs bits) (cs.map Char.toNat)) = Ruint.Radix.fromStr bits cs := by
+  unfold Ruint.Gen.uint_from_str Ruint.Radix.fromStr
+  have hs := split_len cs 2
+  have R : ∀ (r : ℕ) (l : List Char), r < 2 ^ 64 → l.length ≤ cs.length →
+      toRes (Ruint.Gen.uint_from_str_radix f bits (nlimbs bits) (l.map Char.toNat) r) = fromStrRadix bits r l :=
+    fun r l hr hll => from_str_radix_eq bits r hN hr l (by omega) f (by omega)
+  simp only [isCB_eq, split_eq,
+    show ([48, 120] : List ℕ) = ['0', 'x'].map Char.toNat from rfl,
+    show ([48, 88] : List ℕ) = ['0', 'X'].map Char.toNat from rfl,
+    show ([48, 111] : List ℕ) = ['0', 'o'].map Char.toNat from rfl,
+    show ([48, 79] : List ℕ) = ['0', 'O'].map Char.toNat from rfl,
+    show ([48, 98] : List ℕ) = ['0', 'b'].map Char.toNat from rfl,
+    show ([48, 66] : List ℕ) = ['0', 'B'].map Char.toNat from rfl, map_beq,
+    Bool.or_eq_true, decide_eq_true_eq]
+  generalize splitAtByte cs 2 = p at hs ⊢
+  obtain ⟨pfx, rest⟩ := p
+  dsimp only at hs ⊢
+  split_ifs <;> dsimp only <;> apply R <;> omega
 end Ruint.GenStr
